@@ -343,7 +343,7 @@ def address_reuse_sweep(chk: Check, n_pairs: int) -> None:
     }
 
 
-def hashseed_sweep(chk: Check, per_contract: int) -> None:
+def hashseed_sweep(chk: Check, per_contract: int, extra_for_subs: int = 0) -> None:
     """Every usable corpus contract is analysed (all detectors) under `per_contract` interpreter
     hash seeds other than the reference's, eight contracts per interpreter.  Hash-seed dependence
     needs no history, only the right input: the random sessions visit a contract under another
@@ -352,8 +352,12 @@ def hashseed_sweep(chk: Check, per_contract: int) -> None:
     items = [c for c in ctx.contracts if ctx.info[c]["lines"] <= 400]
     dets = list(ctx.detectors)
     specs: List[Dict[str, Any]] = []
-    for rnd in range(per_contract):
-        order = _slice(chk, items, len(items), "hs%d" % rnd)
+    subs = [c for c in items if c in ctx.with_subs]
+    for rnd in range(per_contract + extra_for_subs):
+        # orders that come from sets of subroutine names or labels show under some seeds only:
+        # contracts with several subroutines get further seeds
+        pool = items if rnd < per_contract else subs
+        order = _slice(chk, pool, len(pool), "hs%d" % rnd)
         for s in range(0, len(order), 8):
             ops = [
                 {"op": "single", "c": cid, "dets": dets, "runs": None, "s1": "id", "uid": u}
@@ -371,6 +375,7 @@ def hashseed_sweep(chk: Check, per_contract: int) -> None:
     chk.stats["sweep_hashseed"] = {
         "contracts": len(items),
         "hash_seeds_per_contract": per_contract,
+        "further_hash_seeds_for_contracts_with_2plus_subroutines": extra_for_subs,
         "sessions": len(specs),
         "compared_ops": chk.stats["compared_ops"] - before,
         "wall_s": round(time.time() - t0, 1),
